@@ -24,14 +24,29 @@ type vC04Parent struct {
 	cnf  *conf.Conf
 }
 
-func (p *vC04Parent) Log(logger.Level, string, ...any)                          {}
-func (p *vC04Parent) APIConfigSnapshot() *conf.Conf                              { return p.cnf }
-func (p *vC04Parent) APIConfigGlobalPatch(conf.OptionalGlobal) error             { p.seen.Mark("global"); return nil }
-func (p *vC04Parent) APIConfigPathDefaultsPatch(conf.OptionalPath) error         { p.seen.Mark("pathdefaults"); return nil }
-func (p *vC04Parent) APIConfigPathsAdd(n string, _ conf.OptionalPath) error      { p.seen.Mark(n); return nil }
-func (p *vC04Parent) APIConfigPathsPatch(n string, _ conf.OptionalPath) error    { p.seen.Mark(n); return nil }
-func (p *vC04Parent) APIConfigPathsReplace(n string, _ conf.OptionalPath) error  { p.seen.Mark(n); return nil }
-func (p *vC04Parent) APIConfigPathsDelete(n string) error                        { p.seen.Mark(n); return nil }
+func (p *vC04Parent) Log(logger.Level, string, ...any) {}
+func (p *vC04Parent) APIConfigSnapshot() *conf.Conf    { return p.cnf }
+func (p *vC04Parent) APIConfigGlobalPatch(conf.OptionalGlobal) error {
+	p.seen.Mark("global")
+	return nil
+}
+func (p *vC04Parent) APIConfigPathDefaultsPatch(conf.OptionalPath) error {
+	p.seen.Mark("pathdefaults")
+	return nil
+}
+func (p *vC04Parent) APIConfigPathsAdd(n string, _ conf.OptionalPath) error {
+	p.seen.Mark(n)
+	return nil
+}
+func (p *vC04Parent) APIConfigPathsPatch(n string, _ conf.OptionalPath) error {
+	p.seen.Mark(n)
+	return nil
+}
+func (p *vC04Parent) APIConfigPathsReplace(n string, _ conf.OptionalPath) error {
+	p.seen.Mark(n)
+	return nil
+}
+func (p *vC04Parent) APIConfigPathsDelete(n string) error { p.seen.Mark(n); return nil }
 
 type vC04PM struct{ seen *vC04Seen }
 
@@ -143,18 +158,25 @@ func TestVerifC04(t *testing.T) {
 	}
 	seen := &vC04Seen{}
 	mgr := vC04Manager()
-	addr := vC04FreeAddr()
-	a := &API{
-		Version: "v0.0.0-c04", Started: time.Unix(1700000000, 0), Address: addr,
-		TrustedProxies: vC04TrustedProxies(),
-		ReadTimeout:    conf.Duration(20 * time.Second), WriteTimeout: conf.Duration(20 * time.Second),
-		AuthManager: mgr,
-		PathManager: &vC04PM{seen}, RTSPServer: &vC04RTSP{seen}, RTSPSServer: &vC04RTSP{seen},
-		RTMPServer: &vC04RTMP{seen}, RTMPSServer: &vC04RTMP{seen}, HLSServer: &vC04HLS{seen},
-		WebRTCServer: &vC04WebRTC{seen}, SRTServer: &vC04SRT{seen}, MoQServer: &vC04MoQ{seen},
-		Parent: &vC04Parent{seen: seen, cnf: cnf},
+	var addr string
+	var a *API
+	for try := 0; try < 4; try++ { // the scratch port may be taken between probing and listening
+		addr = vC04FreeAddr()
+		a = &API{
+			Version: "v0.0.0-c04", Started: time.Unix(1700000000, 0), Address: addr,
+			TrustedProxies: vC04TrustedProxies(),
+			ReadTimeout:    conf.Duration(20 * time.Second), WriteTimeout: conf.Duration(20 * time.Second),
+			AuthManager: mgr,
+			PathManager: &vC04PM{seen}, RTSPServer: &vC04RTSP{seen}, RTSPSServer: &vC04RTSP{seen},
+			RTMPServer: &vC04RTMP{seen}, RTMPSServer: &vC04RTMP{seen}, HLSServer: &vC04HLS{seen},
+			WebRTCServer: &vC04WebRTC{seen}, SRTServer: &vC04SRT{seen}, MoQServer: &vC04MoQ{seen},
+			Parent: &vC04Parent{seen: seen, cnf: cnf},
+		}
+		if err = a.Initialize(); err == nil {
+			break
+		}
 	}
-	if err = a.Initialize(); err != nil {
+	if err != nil {
 		t.Fatal(err)
 	}
 	defer a.Close()
